@@ -388,6 +388,59 @@ def gen_attack(seen, alpha_n, thorough):
     return out
 
 
+FOREIGN_DOCS = ['<script>alert(1)</script>\n', 'a <b onmouseover="x()">b</b> c\n', '<div>\nraw\n</div>\n\ntext <i>x</i>\n',
+                '<!-- c -->\n\n> <span class="y">q</span>\n', '- <em>x</em>\n- <?php ?>\n']
+
+
+def _run_foreign(job):
+    """Histories: a renderer constructed with process_html_tokens=False must never emit raw HTML,
+    also when it is handed a Document that was parsed while raw-HTML tokens were active (an outer
+    HtmlRenderer still open, or a tree parsed under another renderer).  Refusing (an exception,
+    no output) is admissible; output must pass the strict monitor with nothing set aside."""
+    res = {'evaluations': 0, 'distinct_nontrivial': 0, 'contract_evaluations': 0, 'failures': [], 'samples': []}
+    from mistletoe import Document, HtmlRenderer
+    from mistletoe import block_token, span_token
+    for md in FOREIGN_DOCS:
+        for dq in (False, True):
+            for mode in ('tree-from-open-html-renderer', 'nested-context', 'tree-reused-after-exit'):
+                out = None
+                try:
+                    if mode == 'tree-from-open-html-renderer':
+                        with HtmlRenderer() as outer:
+                            doc = Document(md)
+                            inner = HtmlRenderer(process_html_tokens=False, html_escape_double_quotes=dq)
+                            out = inner.render(doc)
+                    elif mode == 'nested-context':
+                        with HtmlRenderer() as outer:
+                            with HtmlRenderer(process_html_tokens=False, html_escape_double_quotes=dq) as inner:
+                                out = inner.render(Document(md))
+                    else:
+                        with HtmlRenderer() as outer:
+                            doc = Document(md)
+                        with HtmlRenderer(process_html_tokens=False, html_escape_double_quotes=dq) as inner:
+                            out = inner.render(doc)
+                except Exception:
+                    out = None          # refusal: no output produced
+                finally:
+                    block_token.reset_tokens()
+                    span_token.reset_tokens()
+                res['evaluations'] += 1
+                res['contract_evaluations'] += 1
+                res['distinct_nontrivial'] += 1
+                if out is None:
+                    continue
+                viol, _st = html_wf.check(out)
+                ok = not viol
+                if not ok or '<script' in out or '<b ' in out or '<div' in out or '<span' in out or '<?php' in out or '<!--' in out:
+                    res['failures'].append({
+                        'key': 'html-raw-without-html-tokens|%r|%s|dq=%s' % (md, mode, dq), 'contract': 'html-raw-without-html-tokens',
+                        'class': 'raw-html-emitted-by-renderer-without-html-tokens', 'input': md, 'options_failing': [{'mode': mode, 'dq': dq}],
+                        'observed': out[:200], 'expected': 'no raw HTML in the output of HtmlRenderer(process_html_tokens=False)',
+                        'replay': 'from mistletoe import Document, HtmlRenderer\nwith HtmlRenderer():\n    d = Document(%r)\n'
+                                  '    print(HtmlRenderer(process_html_tokens=False).render(d))' % md})
+    return res
+
+
 def run(tier, seed, workers):
     T = Timer()
     thorough = tier == 'thorough'
@@ -399,7 +452,7 @@ def run(tier, seed, workers):
     mut_maxlen = 10 ** 9 if thorough else 40
     n_random = 2000000 if thorough else 200000
 
-    jobs = []
+    jobs = [(_run_foreign, None)]
     spec = gen_spec()
     seen = set(spec)
     muts = gen_mutations(spec, mut_maxlen, alpha_full8)
@@ -437,6 +490,8 @@ def run(tier, seed, workers):
             return len(SIGMA) ** (a[1] - len(a[0])) * a[2]
         if fn is _run_inputs:
             return sum(len(s) for s in a[1]) * 2
+        if fn is _run_foreign:
+            return 10
         return 20000
     jobs.sort(key=weight, reverse=True)
     results = _pmap(jobs, workers)
